@@ -259,9 +259,11 @@ def catalogue(lentil, rng):
     def _():
         shape, a = pupil_args()
         s_ = float(rng.choice([1.5, 2.0, 3.3]))
+        a['mask'] = np.pad(np.sum(a['mask'], axis=0), 2)         # clear of the array border (see the rescale entry)
+        a['amp'], a['opd'] = np.pad(a['amp'], 2), np.pad(a['opd'], 2)
         def call(a):
-            p = lentil.Pupil(amplitude=a['amp'], opd=a['opd'], mask=np.sum(a['mask'], axis=0), pixelscale=1e-3, focal_length=5.0)
-            q = lentil.Pupil(amplitude=a['amp'], opd=a['opd'], mask=np.sum(a['mask'], axis=0), pixelscale=1e-3, focal_length=5.0)
+            p = lentil.Pupil(amplitude=a['amp'], opd=a['opd'], mask=a['mask'], pixelscale=1e-3, focal_length=5.0)
+            q = lentil.Pupil(amplitude=a['amp'], opd=a['opd'], mask=a['mask'], pixelscale=1e-3, focal_length=5.0)
             fp = probe.fingerprint(p)
             reads = (p.diameter, p.shape, p.size, p.global_mask.sum(), p.ptt_vector.shape, p.ptype, p.pixelscale)   # read-only views
             fp2 = probe.fingerprint(p)
@@ -284,7 +286,10 @@ def catalogue(lentil, rng):
     @op('rescale')
     def _():
         shape, a = pupil_args()
-        a['mask'] = np.sum(a['mask'], axis=0)        # monolithic: tiny random segments vanishing under resampling is C17's domain
+        # monolithic and clear of the array border: tiny segments or a one-sample-wide mask on the border vanishing under
+        # resampling (IndexError in _plane_slice) is C17's domain, not a purity question
+        a['mask'] = np.pad(np.sum(a['mask'], axis=0), 2)
+        a['amp'], a['opd'] = np.pad(a['amp'], 2), np.pad(a['opd'], 2)
         s = float(rng.choice([1.5, 2.0, 1.0]))      # down-sampling tiny random segments away is C17's domain
         def call(a):
             p = mk_pupil(a)
